@@ -15,6 +15,35 @@ ALLOWED_WRITES = {
 
 
 def run(repo, res):
+    res.rule("R29.7", "_relabel_mutations_node registers, for every inserted edge, the new id of both its child and its parent in the old-to-new map, unconditionally: the map must always name the piece of a split node that is present in the current tree (a piece that is a local root is only ever seen as a parent)")
+    rl_ = repo.fn("util", "_relabel_mutations_node")
+    ins_ = [w for w in own_nodes(rl_) if isinstance(w, ast.While) and "insert" in U(w.test)]
+    if len(ins_) != 1:
+        raise AnalysisError("R29.7: edge-insertion loop of _relabel_mutations_node not found")
+    from ..base import walk_guarded as _wg
+
+    stores_ = []
+    for st_, g_ in _wg(ins_[0].body):
+        if isinstance(st_, ast.Assign) and isinstance(st_.targets[0], ast.Subscript) and isinstance(st_.value, ast.Name):
+            conds_ = [U(e) for e, pol in g_ if not isinstance(e, str)]
+            stores_.append((U(st_.targets[0].slice), st_.value.id, conds_, st_))
+    roles_ = {}
+    for n_ in ast.walk(ins_[0]):
+        if isinstance(n_, ast.Assign) and isinstance(n_.targets[0], ast.Tuple) and isinstance(n_.value, ast.Tuple):
+            for t_, v_ in zip(n_.targets[0].elts, n_.value.elts):
+                if isinstance(v_, ast.Subscript) and U(v_.value) in ("edges_child", "edges_parent"):
+                    roles_[U(t_)] = U(v_.value)[6:]
+    seen_ = {}
+    for idx_, val_, conds_, st_ in stores_:
+        role_ = roles_.get(val_)
+        if role_ and val_ in idx_:
+            seen_[role_] = (conds_, st_)
+    for role_ in ("child", "parent"):
+        if role_ not in seen_:
+            res.bad("R29.7", f"util._relabel_mutations_node maps the inserted edge's {role_}", f"no store `map[order[{role_}]] = {role_}` in the insertion loop", repo.loc(rl_, ins_[0]))
+        else:
+            conds_, st_ = seen_[role_]
+            res.require(not conds_, "R29.7", f"util._relabel_mutations_node maps the inserted edge's {role_}", f"`{U(st_)}` happens only when {conds_}: when a later piece of a split node enters the tree as a local root the map keeps the earlier piece, and mutations above that root stay on a node that is not in the tree", repo.loc(rl_, st_), U(st_))
     res.rule("R29.6", "_reorder_nodes takes its 'no metadata' shortcut only when the existing column *and* the new unsplit_node_id rows are empty: the emptiness test reads the concatenation that includes extra_md_dict")
     rn_ = repo.fn("util", "_reorder_nodes")
     from ..base import Defs as _Defs
@@ -122,6 +151,7 @@ def run(repo, res):
 
 
 VARIANTS = [
+    dict(name="parent-map-only-if-unset", mod="util", expect="fire", rule="R29.7", old="            nodes_map[nodes_order[c]] = c\n            nodes_map[nodes_order[p]] = p\n", new="            nodes_map[nodes_order[c]] = c\n            if nodes_map[nodes_order[p]] == tskit.NULL:\n                nodes_map[nodes_order[p]] = p\n"),
     dict(name="empty-shortcut-ignores-new-rows", mod="util", expect="fire", rule="R29.6", old="    md = np.concatenate(data)\n    if len(md) == 0:  # Common edge case: no metadata", new="    md = np.concatenate(data)\n    if len(node_table.metadata) == 0:  # Common edge case: no metadata"),dict(name="flags-equality-in-split", mod="util", expect="fire", rule="R29.5", old="    node_is_sample = np.bitwise_and(ts.nodes_flags, tskit.NODE_IS_SAMPLE).astype(bool)", new="    node_is_sample = ts.nodes_flags == tskit.NODE_IS_SAMPLE")] + [
     dict(name="individual-column-dropped", mod="util", expect="fire", rule="R29.1", old="        individual=node_table.individual[order],\n", new=""),
     dict(name="population-not-permuted", mod="util", expect="fire", rule="R29.1", old="        population=node_table.population[order],", new="        population=node_table.population[: len(order)],"),
